@@ -4,6 +4,7 @@ import (
 	"context"
 	"encoding/json"
 	"fmt"
+	"runtime"
 	"sync"
 	"testing"
 	"time"
@@ -180,6 +181,15 @@ func c02Run(t rt.TB, c c02Case, quiet bool) {
 			go func(i int, s *rt.ManualSrc) {
 				defer wg.Done()
 				<-start
+				if i > 0 && !quiet && rep%2 == 1 {
+					// every other repetition: the other producers wait until the observer is
+					// inside its first callback, so that their notifications arrive while a
+					// delivery is in progress (the window a missing lock leaves open)
+					deadline := time.Now().Add(2 * time.Millisecond)
+					for rec.Len() == 0 && time.Now().Before(deadline) {
+						runtime.Gosched()
+					}
+				}
 				for _, e := range c.Scripts[i%len(c.Scripts)] {
 					s.Emit(e)
 				}
